@@ -985,7 +985,10 @@ def external(I, run, name: str, args, kwargs, node, recv=None, kind=None) -> Val
         pass
     run.seq += 1
     ret = App("ret", (C(name), C(run.seq)), kind)
-    e = run.effect(name, args, kwargs, node=node, ret=ret)
+    kw = dict(kwargs)
+    if recv is not None:
+        kw["@recv"] = recv
+    e = run.effect(name, args, kw, node=node, ret=ret)
     if I.cfg.may_raise is not None:
         excs = I.cfg.may_raise(name, node, run) or []
         if excs:
